@@ -493,4 +493,4 @@ def run(prog, rep, tier):
     check_cross_space(prog, rep)
     c17.check_outcross(prog, rep)
     c17.check_tiled(prog, rep)
-    wire(prog, rep, "C07", 55, 310)
+    wire(prog, rep, "C07", 55, 310, 480)
